@@ -45,11 +45,15 @@ def one_case(obs, rng, conv, kw, spec, mode):
 
 def _one_case(obs, rng, conv, kw, spec, mode, work):
     import emsarray
-    model = make_dressed(rng, conv, dress=dict(time=True, per_kind=(1, 2), nongrid=1, max_extra=2), **kw)
+    source = 'disk' if rng.random() < 0.35 else 'memory'
+    from ..model.base import DTYPES, DTYPES_WITH_DATETIME
+    # gridded datetime64 variables (e.g. "time of last wetting") only for in-memory sources: once such a variable has
+    # time units in its encoding, the generic conventions may take it for THE time coordinate, which is not our subject
+    dtypes = DTYPES_WITH_DATETIME if source == 'memory' else DTYPES
+    model = make_dressed(rng, conv, dress=dict(time=True, per_kind=(1, 2), nongrid=1, max_extra=2, dtypes=dtypes), **kw)
     if model.skip_cells:
         obs.cls('dataset-with-degenerate-derived-cells-skipped')
         return
-    source = 'disk' if rng.random() < 0.35 else 'memory'
     history = 'via-file' if rng.random() < 0.4 else 'direct'
     spec.update(model=model.describe(), source=source, history=history)
 
@@ -157,7 +161,7 @@ def expected_variable(model, var, selection):
         return var.layout(model).astype(float), None
     kind = model.kinds[var.kind]
     kept = selection[var.kind]
-    maskable = var.dtype.startswith('float') or var.fill is not None
+    maskable = var.dtype.startswith('float') or var.dtype.startswith('datetime64') or var.fill is not None
     if model.convention == 'ugrid':
         canon = var.canon[..., kept]
         src_dims = var.extra_dims + kind.dims
@@ -182,6 +186,12 @@ def check_values(obs, model, out, selection, source):
                           lambda: {'var': name, 'got': got.dims, 'want': var.dims}, mech='dims-changed'):
             continue
         gv = numpy.asarray(got.values)
+        if var.dtype.startswith('datetime64'):
+            obs.cls('var:datetime64')
+            if not obs.expect(gv.dtype.kind == 'M', 'a datetime variable stays a datetime variable', lambda: {'var': name, 'dtype': str(gv.dtype)}, mech='values-wrong'):
+                continue
+            from ..model.base import datetime_to_ids
+            gv = datetime_to_ids(gv)
         if var.kind is None:
             obs.cls('var:no-grid')
             obs.expect(nan_equal(gv.astype(float), want), 'variable without spatial dimensions passes through unchanged', lambda: {'var': name}, mech='nongrid-altered')
@@ -350,6 +360,10 @@ def check_validity(obs, model, out, selection, source, work, rng):
                                                  for a, b in zip(spolys, polys))
         obs.expect(same, 'keeping only some data variables leaves every polygon identical', mech='subset-geometry-changed')
     for n in names:
+        if n not in subset and model.variables[n].dtype.startswith('datetime64'):
+            # a gridded datetime variable can be taken for the time coordinate (which is always kept): not asserted
+            obs.cls('subset:datetime-variable-not-asserted')
+            continue
         obs.expect((n in sub.data_vars) == (n in subset), 'select_variables keeps exactly the requested data variables',
                    lambda: {'var': n, 'subset': subset}, mech='subset-wrong-variables')
     for gname in model.geometry_names:
@@ -377,6 +391,10 @@ def check_subset_of_original(obs, model, ems, epolys, rng):
                                                   for a, b in zip(spolys, epolys))
         obs.expect(same, 'keeping only some data variables leaves every polygon identical', mech='subset-geometry-changed')
     for n in names:
+        if n not in subset and model.variables[n].dtype.startswith('datetime64'):
+            # a gridded datetime variable can be taken for the time coordinate (which is always kept): not asserted
+            obs.cls('subset:datetime-variable-not-asserted')
+            continue
         obs.expect((n in sub.data_vars) == (n in subset), 'select_variables keeps exactly the requested data variables',
                    lambda: {'var': n, 'subset': subset}, mech='subset-wrong-variables')
     for gname in model.geometry_names:
